@@ -98,10 +98,33 @@ def cbytes(bs):
 
 
 # ------------------------------------------------------------------ forbidden grep
-def scan_forbidden():
+def cone_dirs(pid):
+    """theories/ sub-directories the property's development can depend on: Base, its own, and every
+    Cyy it imports (transitively)."""
+    todo, seen = [pid], {"Base"}
+    while todo:
+        d = todo.pop()
+        if d in seen:
+            continue
+        seen.add(d)
+        dd = os.path.join(COQ, "theories", d)
+        if not os.path.isdir(dd):
+            continue
+        for f in os.listdir(dd):
+            if f.endswith(".v"):
+                for m in re.finditer(r"\b(C\d\d)\.\w+", open(os.path.join(dd, f)).read()):
+                    if m.group(1) not in seen:
+                        todo.append(m.group(1))
+    return seen
+
+
+def scan_forbidden(pid=None):
     """Hypothesis/Variable are allowed only inside a Section; the others never."""
     bad = []
+    dirs = cone_dirs(pid) if pid else None
     for root, _, files in os.walk(os.path.join(COQ, "theories")):
+        if dirs is not None and os.path.basename(root) not in dirs:
+            continue
         for f in files:
             if not f.endswith(".v"):
                 continue
@@ -406,7 +429,7 @@ def check(pid, tier="quick", seed=None, replay=None):
     notes = {}
 
     # 0. forbidden tokens
-    bad = scan_forbidden()
+    bad = scan_forbidden(pid)
     if bad:
         problems.append({"kind": "forbidden-token", "where": bad[:10]})
 
